@@ -47,7 +47,7 @@ func meta(c Case) vr.Meta {
 			nt = true
 		}
 	}
-	for _, f := range []string{frag.FeatTitle, frag.FeatChar, frag.FeatStray, frag.FeatNoteCol, frag.FeatLone, frag.FeatRTL, frag.FeatFlip} {
+	for _, f := range []string{frag.FeatTitle, frag.FeatChar, frag.FeatStray, frag.FeatNoteCol, frag.FeatLone, frag.FeatGutter, frag.FeatRTL, frag.FeatFlip} {
 		if p.Has(f) {
 			nt = true
 		}
@@ -295,6 +295,25 @@ func elementsText(els []layout.LayoutElement) string {
 	return sb.String()
 }
 
+// structuredText reads every element through its type-specific part: the Heading, List or Paragraph it points at.
+func structuredText(els []layout.LayoutElement) (string, error) {
+	var sb strings.Builder
+	for i, e := range els {
+		switch {
+		case e.Type == model.ElementTypeHeading && e.Heading != nil:
+			sb.WriteString(e.Heading.Text)
+		case e.Type == model.ElementTypeList && e.List != nil:
+			listText(e.List.Items, &sb)
+		case e.Type == model.ElementTypeParagraph && e.Paragraph != nil:
+			sb.WriteString(e.Paragraph.Text)
+		default:
+			return "", fmt.Errorf("Analyzer.Analyze: element %d of type %v has no Heading/List/Paragraph part", i, e.Type)
+		}
+		sb.WriteByte('\n')
+	}
+	return sb.String(), nil
+}
+
 func checkAnalyzer(c Case) error {
 	in := c.Page.Fragments()
 	w, h := c.Page.Box()
@@ -305,7 +324,17 @@ func checkAnalyzer(c Case) error {
 		flat.WriteString(e.Text)
 		flat.WriteByte('\n')
 	}
+	st, err := structuredText(res.Elements)
+	if err != nil {
+		return err
+	}
+	qst, err := structuredText(quick.Elements)
+	if err != nil {
+		return err
+	}
 	return first(
+		sameRunes("Analyzer.Analyze: Heading.Text / List items / Paragraph.Text the Elements point at", in, st),
+		sameRunes("Analyzer.QuickAnalyze: Paragraph.Text the Elements point at", in, qst),
 		sameRunes("Analyzer.Analyze: text of all Elements (list elements: prefix+text of every item incl. nested)", in, elementsText(res.Elements)),
 		sameRunes("Analyzer.Analyze: LayoutElement.Text of all Elements", in, flat.String()),
 		sameRunes("AnalysisResult.GetText", in, res.GetText()),
@@ -322,17 +351,17 @@ func init() {
 	vr.Register("analyzer", checkAnalyzer)
 }
 
-func TestLines(t *testing.T) { vr.Prop(t, "lines", vr.N(1500, 60000), genCase, meta, checkLines) }
+func TestLines(t *testing.T) { vr.Prop(t, "lines", vr.N(6000, 150000), genCase, meta, checkLines) }
 func TestColumns(t *testing.T) {
-	vr.Prop(t, "columns", vr.N(1500, 60000), genCase, meta, checkColumns)
+	vr.Prop(t, "columns", vr.N(6000, 150000), genCase, meta, checkColumns)
 }
 func TestReading(t *testing.T) {
-	vr.Prop(t, "reading", vr.N(1500, 60000), genCase, meta, checkReading)
+	vr.Prop(t, "reading", vr.N(6000, 150000), genCase, meta, checkReading)
 }
 func TestParagraphs(t *testing.T) {
-	vr.Prop(t, "paragraphs", vr.N(1500, 60000), genCase, meta, checkParagraphs)
+	vr.Prop(t, "paragraphs", vr.N(6000, 150000), genCase, meta, checkParagraphs)
 }
-func TestBlocks(t *testing.T) { vr.Prop(t, "blocks", vr.N(1500, 60000), genCase, meta, checkBlocks) }
+func TestBlocks(t *testing.T) { vr.Prop(t, "blocks", vr.N(6000, 150000), genCase, meta, checkBlocks) }
 func TestAnalyzer(t *testing.T) {
-	vr.Prop(t, "analyzer", vr.N(1500, 60000), genCase, meta, checkAnalyzer)
+	vr.Prop(t, "analyzer", vr.N(6000, 150000), genCase, meta, checkAnalyzer)
 }
